@@ -1990,6 +1990,7 @@ func (tc *typechecker) checkCompositeLiteral(node *ast.CompositeLiteral, typ ref
 		}
 
 		hasIndex := map[int]struct{}{}
+		index := -1
 		for i := range node.KeyValues {
 			kv := &node.KeyValues[i]
 			if kv.Key != nil {
@@ -1998,12 +1999,18 @@ func (tc *typechecker) checkCompositeLiteral(node *ast.CompositeLiteral, typ ref
 					panic(tc.errorf(node, "index must be non-negative integer constant"))
 				}
 				if keyTi.IsConstant() {
-					index := int(keyTi.Constant.int64())
+					index = int(keyTi.Constant.int64())
 					if _, ok := hasIndex[index]; ok {
 						panic(tc.errorf(node, "duplicate index in %s literal: %s", ti.Type.Kind(), kv.Key))
 					}
 					hasIndex[index] = struct{}{}
 				}
+			} else {
+				index++
+				if _, ok := hasIndex[index]; ok {
+					panic(tc.errorf(node, "duplicate index in %s literal: %d", ti.Type.Kind(), index))
+				}
+				hasIndex[index] = struct{}{}
 			}
 			var elemTi *typeInfo
 			if cl, ok := kv.Value.(*ast.CompositeLiteral); ok {
